@@ -158,10 +158,14 @@ def main(pid, tier, seed):
     n_float = 60 if tier == 'quick' else 1200
     flagsets = [dict(), dict(skip_brute=True), dict(skip_case=True), dict(folder='Prince'),
                 dict(skip_brute=True, skip_case=True), dict(folder='Prince', skip_case=True)]
+    from . import shapes
+    fsets = []
     for fi in range(n_float):
         d = os.path.join(work, 'f%d' % fi)
-        desc = ptq.random_float_ruleset(rng, d)
-        for flags in (flagsets if pid == 'C01' else [rng.choice(flagsets)]):
+        fsets.append((d, ptq.random_float_ruleset(rng, d), False))
+    fsets += [(d, desc, True) for d, desc in shapes.all_special(rng, work)]        # the shared special shapes, under every flag set
+    for fi, (d, desc, special) in enumerate(fsets):
+        for flags in (flagsets if (pid == 'C01' or special) else [rng.choice(flagsets)]):
             try:
                 pcfg = ptq.load_pcfg(d, **flags)
             except Exception:
